@@ -297,7 +297,23 @@ def run_relay(case):
         h.handle_data = handle_data
 
         final_res = 0
-        for ev in case['events']:
+        executed = []
+        client_plan = list(case.get('client_plan', []))
+        up_plan = list(case.get('up_plan', []))
+        for ev0 in case['events']:
+            # materialise the event: readable descriptors take the next piece of the planned stream (if the
+            # piece is not consumed in this step -- descriptor not registered -- it goes back to the plan,
+            # so each direction is a gap-free byte stream)
+            ev = dict(ev0)
+            ev['r'] = list(ev0.get('r', ()))
+            took_c = took_u = False
+            if ev0.get('cr') and 'c_recv' not in ev0 and client_plan:
+                ev['c_recv'] = client_plan.pop(0); took_c = True
+                ev['r'].append('client')
+            if ev0.get('ur') and 'u_recv' not in ev0 and up_plan and S.upstreams:
+                ev['u_recv'] = up_plan.pop(0); took_u = True
+                ev['r'].append('up0')
+            executed.append(ev)
             clock.t = ev['now'] / TICK
             names, _ = S.interest()
             rec.clear()
@@ -313,6 +329,10 @@ def run_relay(case):
             # what was consumed
             if up is not None and isinstance(ev.get('u_recv'), (bytes, bytearray)) and ev['u_recv'] and not up.inq:
                 uprcvd += bytes(ev['u_recv'])          # the scripted piece was taken by a recv() call
+            if took_c and S.client.inq:
+                client_plan.insert(0, ev['c_recv'])
+            if took_u and up is not None and up.inq:
+                up_plan.insert(0, ev['u_recv'])
             for s_ in [S.client] + S.upstreams:
                 s_.inq[:] = []
                 s_.send_script[:] = []
@@ -353,7 +373,7 @@ def run_relay(case):
                         orc['cdata'] = ['proto', newc]
                     elif is_proxy and rec['up_before'] and newu and not h.request.is_https_tunnel:
                         pr = getattr(h.plugin, 'pipeline_request', None)
-                        orc['cdata'] = ['forward', b''.join(newu), bool(pr is not None and pr.is_connection_upgrade)]
+                        orc['cdata'] = ['forward', list(newu), bool(pr is not None and pr.is_connection_upgrade)]
                     elif newc:
                         orc['cdata'] = ['reply', newc]
             oracles.append(orc)
@@ -384,7 +404,7 @@ def run_relay(case):
                    shutdown_exc=getattr(S, 'shutdown_exc', None) and type(S.shutdown_exc).__name__,
                    trace=list(S.trace), queued=b''.join(cq),
                    client_log=[l for l in S.client.log if l[0] in ('send', 'send_err', 'close')][-40:])
-    return dict(steps=steps, oracles=oracles, fin=fin)
+    return dict(steps=steps, oracles=oracles, fin=fin, events=executed)
 
 
 def _up_conn_any(S, h, handler):
@@ -427,40 +447,45 @@ def coq_cdata(o):
     if o[0] == 'reply':
         return '(DReply %s)' % coq_blist(o[1])
     if o[0] == 'forward':
-        return '(DForward %s %s)' % (C.coq_bytes(o[1]), C.coq_bool(o[2]))
+        return '(DForward %s %s)' % (coq_blist(o[1]), C.coq_bool(o[2]))
     raise ValueError(o)
 
 
-def coq_event(ev, orc):
+def coq_event(ev, orc, t0):
     r, w = ev.get('r', ()), ev.get('w', ())
-    return '(mkEvent %s %s %s %s %s %s %s %s %s %s %s, %s)' % (
-        coq_Z(ev['now']), C.coq_bool('client' in r), C.coq_bool('client' in w),
-        C.coq_bool('up0' in r), C.coq_bool('up0' in w),
-        coq_outcome(ev['c_send']) if ev.get('c_send') is not None else '(Accept 1000000)',
-        coq_outcome(ev['u_send']) if ev.get('u_send') is not None else '(Accept 1000000)',
+    flags = (1 if 'client' in r else 0) + (2 if 'client' in w else 0) + (4 if 'up0' in r else 0) + (8 if 'up0' in w else 0)
+    cs = coq_outcome(ev['c_send']) if ev.get('c_send') is not None else '(Accept 1000000)'
+    us = coq_outcome(ev['u_send']) if ev.get('u_send') is not None else '(Accept 1000000)'
+    off, poff = ev['now'] - t0, ev.get('probe', ev['now']) - t0
+    assert off >= 0 and poff >= 0
+    if ev.get('c_recv') is None and ev.get('u_recv') is None and orc['req'] == 'inc' and orc['cdata'] == 'nothing':
+        return 'CW %d %d %s %s %d' % (off, flags, cs, us, poff)
+    return 'CE %d %d %s %s %s %s %s %s %d' % (
+        off, flags, cs, us,
         coq_recv(ev['c_recv']) if ev.get('c_recv') is not None else 'ROsErr',
         coq_recv(ev['u_recv']) if ev.get('u_recv') is not None else 'ROsErr',
-        coq_req(orc['req']), coq_cdata(orc['cdata']), coq_Z(ev.get('probe', ev['now'])))
+        coq_req(orc['req']), coq_cdata(orc['cdata']), poff)
 
 
 def coq_relay_case(case, out):
     handler = case.get('handler', 'http')
     n = len(out['steps'])
-    evs = [coq_event(ev, orc) for ev, orc in zip(case['events'][:n], out['oracles'][:n])]
-    cfg = '(mkCfg %d %s %s %s)' % (case.get('max_send', 3), C.coq_bytes(ack_packet()),
+    t0 = case.get('t0', T0)
+    evs = [coq_event(ev, orc, t0) for ev, orc in zip(out['events'][:n], out['oracles'][:n])]
+    cfg = '(mkCfg %d ACK %s %s)' % (case.get('max_send', 3),
                                   coq_Z(case.get('timeout', 10) * TICK), C.coq_bool(not case.get('threaded')))
-    exp = ['(mkSO %d %d %d %d %d %d %s %s)' % (s['int'], s['res'], s['csent'], s['usent'], s['cpend'], s['upend'],
-                                               coq_Z(s['la']),
-                                               C.coq_bool(s['inactive']) if s['inactive'] is not None else 'false')
+    exp = ['SO %d %d %d %d %d %d %d %s' % (s['int'], s['res'], s['csent'], s['usent'], s['cpend'], s['upend'],
+                                           s['la'] - t0,
+                                           C.coq_bool(s['inactive']) if s['inactive'] is not None else 'false')
            for s in out['steps']]
     f = out['fin']
-    fin = '(mkFO %d %s %s %s %s %s %s %s %d %d)' % (
-        f['res'], C.coq_bytes(f['cout']), C.coq_bytes(f['uout']), C.coq_bytes(f['cpend']), C.coq_bytes(f['upend']),
-        C.coq_bytes(f['uprcvd']), C.coq_bytes(f['clrcvd']), C.coq_bool(f['cclosed']), f['uclosed'], f['int'])
+    fin = '(mkFO %d %s %s %d %d %d %d %s %d %d)' % (
+        f['res'], C.coq_bytes(f['cout']), C.coq_bytes(f['uout']), len(f['cpend']), len(f['upend']),
+        len(f['uprcvd']), len(f['clrcvd']), C.coq_bool(f['cclosed']), f['uclosed'], f['int'])
     sel = C.coq_list(('None' if x is None else '(Some %s)' % coq_outcome(x)) for x in list(case.get('sel', [])) + ['pipe']) \
         if case.get('threaded') else '[]'
     return 'CRelay %s %s %s %s %s %s %s' % ('KTunnel' if handler == 'tunnel' else 'KHttp', cfg,
-                                           coq_Z(case.get('t0', T0)), C.coq_list(evs), sel, C.coq_list(exp), fin)
+                                           coq_Z(t0), C.coq_list(evs), sel, C.coq_list(exp), fin)
 
 
 # ------------------------------------------------------------------------------------------------
@@ -605,19 +630,19 @@ def gen_relay(rng, profile='relay', n_events=None, max_send=None, handler=None):
     perr_u = 0.15 if ending == 'up-send-error' else 0.0
     now = T0
     slow_client = rng.random() < 0.4          # the client reads slowly: few writable reports, small accepts
+    case['client_plan'] = client_plan
+    case['up_plan'] = up_plan
     for i in range(n_events):
         gap = rng.choice([0, 1, 5, 300]) if profile != 'timed' else rng.choice([1, 200, TICK, case['timeout'] * TICK - 1,
                                                                                 case['timeout'] * TICK, case['timeout'] * TICK + 1])
         now += gap
         ev = dict(now=now, r=[], w=[])
-        if client_plan and rng.random() < (0.6 if i < 4 else 0.35):
-            ev['r'].append('client')
-            ev['c_recv'] = client_plan.pop(0)
-        elif rng.random() < 0.04:
+        if rng.random() < (0.6 if i < 4 else 0.35):
+            ev['cr'] = True                       # client readable: next piece of the client stream
+        elif rng.random() < 0.03:
             ev['r'].append('client')              # spurious wake-up: recv would block
-        if up_plan and rng.random() < 0.5:
-            ev['r'].append('up0')
-            ev['u_recv'] = up_plan.pop(0)
+        if rng.random() < 0.5:
+            ev['ur'] = True                       # upstream readable: next piece of the upstream stream
         if rng.random() < (0.35 if slow_client else 0.8):
             ev['w'].append('client')
             ev['c_send'] = rand_outcome(rng, maxk=max_send, perr=perr_c, pblock=0.25 if slow_client else 0.1)
@@ -633,3 +658,9 @@ def gen_relay(rng, profile='relay', n_events=None, max_send=None, handler=None):
         case['events'].append(dict(now=now, r=[], w=['client', 'up0'], c_send=rng.choice([1, 2, max_send, 100000]),
                                    u_send=100000, probe=now))
     return case
+
+
+def net_imports():
+    """Require line of the generated case files; the tunnel acknowledgement packet (read from /repo) is named once"""
+    return ('From PM Require Import Lib.Bytes Net.Conn Net.ConnCases Net.Handler Net.Tunnel Net.RelayCases.\n'
+            'From Coq Require Import ZArith.\nOpen Scope N_scope.\nDefinition ACK : bytes := %s.' % C.coq_bytes(ack_packet()))
